@@ -106,6 +106,14 @@ class Adapter:
                       "i": [i[f"i{k}"] for k in range(n)]},
                 "o": {"r_data": bits(o["r_data"], dw), "irq": o["irq"]}}
 
+    def classify_exception(self, cfg, e):
+        # "for any number of events": a monitor of a few hundred events (register maps far below the size at which
+        # the recorded open finding about deep OR chains begins) must elaborate and simulate
+        if isinstance(e, RecursionError) and 100 <= cfg["n"] <= 300 and cfg["al"] <= 2:
+            return ("large-monitor", f"an EventMonitor with {cfg['n']} events on a {cfg['dw']}-bit bus dies with RecursionError "
+                    "when elaborated / simulated")
+        return None
+
     def random_cfg(self, r):
         n = r.choice([0, 1, 2, 3, 5, 8, 9, 16, 20])
         dw = r.choice([1, 2, 4, 8, 8, 16, 32])
